@@ -7,7 +7,7 @@ def run(ctx):
     ctx.functions += ['quantile::{ci,ci_max_size,ci_sorted_unchecked,ci_indices}', 'quantile::Stats::{ci,index,new}', 'arrayvec/Vec sort_by as compiled']
     ctx.assumptions += [
         'element selection / order independence / entry-point agreement: u8 elements (ties included), samples of exactly 4 and 5 elements (Vec-based ci: 4), every permutation and multiset implicitly (symbolic arrays); ci_indices replaced by "any in-range index pair of the requested kind, or an error" (decomposition closed by the rank harnesses); unwind 7',
-        'rank arithmetic: Stats::ci / Stats::index with ci_wilson replaced by its contract "any 0 <= lo <= k/n <= hi <= 1 of the documented shape, or the documented domain errors" (closed by C02 and C17 on the real ci_wilson); every double q, NaN included; n symbolic <= 12 (thorough: <= 64) plus concretised n in {3, 15, 100, 4097} (thorough: 1000, 10007, 65536) because multiplication by a symbolic n does not finish in SAT for large n',
+        'rank arithmetic: Stats::ci / Stats::index with ci_wilson replaced by its contract "any 0 <= lo <= k/n <= hi <= 1 of the documented shape, or the documented domain errors" (closed by C02 and C17 on the real ci_wilson); every double q, NaN included; n symbolic <= 12 (thorough: <= 64) plus concretised n in {3, 15, 100, 4097} (thorough: 1000, 8193 [structure] / 10007 [bracket], 65536) because multiplication by a symbolic n does not finish in SAT for large n',
         'float / char / string element types differ only in their PartialOrd and are outside the decided instantiations',
         'a 20-element sample is decided with concrete scrambled data (distinct u16 values) and symbolic ranks/kinds: every rank pair l <= h < 20; samples above 20 elements are outside the element-level bound (48 concrete elements did not finish in 900 s); the rank arithmetic does not depend on the data',
     ]
